@@ -93,6 +93,25 @@ def is_negative_zero(n) -> bool:
     return n == 0.0 and copysign(1, n) == -1
 
 
+def safe_repr(v) -> str:
+    """repr() that also works for an int (alone or inside a tuple or list)
+    with more digits than the running interpreter converts to a decimal
+    string (``sys.set_int_max_str_digits``): such an int is shown in
+    hexadecimal."""
+    try:
+        return repr(v)
+    except ValueError:
+        if isinstance(v, int):
+            return hex(v)
+        elif isinstance(v, tuple):
+            if len(v) == 1:
+                return "(%s,)" % safe_repr(v[0])
+            return "(%s)" % ", ".join(safe_repr(i) for i in v)
+        elif isinstance(v, list):
+            return "[%s]" % ", ".join(safe_repr(i) for i in v)
+        raise
+
+
 def better_repr(v) -> str:
     """Work around Python's not orthogonal and unhelpful repr() for primitive float
     and complex."""
@@ -133,4 +152,4 @@ def better_repr(v) -> str:
         return "{%s}" % members if members else "set()"
     # TODO: elif deal with dicts
     else:
-        return repr(v)
+        return safe_repr(v)
